@@ -26,6 +26,7 @@ type runner struct {
 	distinct map[string]bool // distinct (history, query, form) with a non-empty expected answer
 	chains   map[string]int  // reader chain -> executions
 	planCls  map[string]int  // plan class (see planClass) -> executions compared
+	guardCnt map[string]int  // non-vacuity guards
 }
 
 // world = one (history, schema variant) on its own store.
@@ -624,6 +625,7 @@ func (w *world) check(sql string, q *query, k *kase, f form, what string) [][]in
 	w.r.mu.Lock()
 	w.r.chains[got.Chain]++
 	w.r.planCls[planClass(got.Chain)]++
+	w.guards(q, f, got.Chain)
 	if len(k.Rows) > 0 {
 		w.r.distinct[fmt.Sprintf("%d/%s/%s/%v/%v", w.h.ID, what, f.name, f.useT1, f.useT2)] = true
 	}
@@ -653,6 +655,35 @@ func (w *world) check(sql string, q *query, k *kase, f form, what string) [][]in
 	return abs
 }
 
+// guards counts the executions that reach the situations the check must not be vacuous about (called under r.mu).
+func (w *world) guards(q *query, f form, chain string) {
+	g := w.r.guardCnt
+	sh := &q.Shape
+	if q.Tbl == "t3" && crossTypeRange(q) && onNextColumn(q) && strings.Contains(chain, "raw[f+g") {
+		g["class1:cross-type-range-on-float-leading-column/"+sh.Kind+"-on-next-column/index(f,g)"]++
+	}
+	if sh.Kind == "group" && len(sh.By) >= 2 {
+		switch {
+		case strings.Contains(chain, "hashGrouped"):
+			g["class2:multi-column-nullable-group-by/hash"]++
+			if w.state == "intx" && w.txTouches(q) {
+				g["class2:multi-column-nullable-group-by/hash/in-writing-tx"]++
+			}
+		case strings.Contains(chain, "grouped"):
+			g["class2:multi-column-nullable-group-by/streaming"]++
+		}
+	}
+	if orderByInner(q) {
+		g["join:order-by-inner-table-column"]++
+	}
+	if nonEquiOn(q) && (f.joinCond == "hash" || f.joinCond == "flip") {
+		g["join:hash-join-with-correlated-non-equi-conjunct"]++
+	}
+	if explicitNulls(q) && !strings.Contains(chain, "sort") && strings.Contains(chain, "raw[") && !strings.Contains(chain, "raw[pk") {
+		g["order:explicit-nulls-placement-served-by-index"]++
+	}
+}
+
 func symptomClass(bad string) string {
 	switch {
 	case strings.Contains(bad, "out of order"):
@@ -670,6 +701,9 @@ func symptomClass(bad string) string {
 func queryClass(q *query) string {
 	sh := &q.Shape
 	c := sh.Kind
+	if q.Tbl == "t3" {
+		c = "t3/" + c
+	}
 	if len(q.Join) > 0 {
 		c = q.Join[0].Type + "-join/" + c
 	}
@@ -684,7 +718,7 @@ func queryClass(q *query) string {
 			c += "+limit"
 		}
 	} else {
-		if sh.By == "" {
+		if len(sh.By) == 0 {
 			c = strings.Replace(c, "group", "aggregate", 1)
 		}
 		if sh.Having {
@@ -705,17 +739,104 @@ func (w *world) txWrites() bool { return w.state == "intx" && w.h.Split < len(w.
 //   - DISTINCT + ORDER BY + LIMIT served by the bounded (top-N) sort: LIMIT is applied before DISTINCT;
 //   - hash join with an unqualified inner column in ON: the hash table is keyed by a selector no row has.
 // Everything else: query class : symptom : form : plan class : state.
-func (w *world) diagnose(symptom, chain, otherChain string, f form, q *query) string {
+// txTouches: the open transaction has written rows of the table(s) q reads.
+func (w *world) txTouches(q *query) bool {
+	if q.Tbl == "t3" {
+		return w.state == "intx" && w.t3InTx
+	}
+	return w.txWrites()
+}
+
+func orderByInner(q *query) bool {
+	for _, o := range q.Shape.order {
+		if o.Col == "id2" || o.Col == "x" || o.Col == "y" {
+			return len(q.Join) > 0
+		}
+	}
+	return false
+}
+
+func nonEquiOn(q *query) bool {
+	if len(q.Join) == 0 {
+		return false
+	}
+	for _, on := range q.Join[0].On {
+		if on[1] != "=" {
+			return true
+		}
+	}
+	return false
+}
+
+func explicitNulls(q *query) bool {
+	for _, o := range q.Shape.order {
+		if o.Nulls != "" {
+			return true
+		}
+	}
+	return false
+}
+
+func hasILit(p *pred) bool {
+	if p == nil {
+		return false
+	}
+	return p.ILit || hasILit(p.L) || hasILit(p.R) || hasILit(p.P)
+}
+
+// crossTypeRange: WHERE is f <op> c1 AND f <op> c2 (a range, not an equality) with at least one INTEGER literal.
+func crossTypeRange(q *query) bool {
+	if len(q.Where) == 0 || q.Where[0].K != "and" {
+		return false
+	}
+	l, r := q.Where[0].L, q.Where[0].R
+	return l.K == "cmp" && r.K == "cmp" && l.Col == "f" && r.Col == "f" && l.Op != "=" && r.Op != "=" && (l.ILit || r.ILit)
+}
+
+// onNextColumn: the query orders / groups / de-duplicates by g, the column after f in the index (f, g).
+func onNextColumn(q *query) bool {
+	sh := &q.Shape
+	if sh.Kind == "group" {
+		return len(sh.By) > 0 && sh.By[0] == "g"
+	}
+	if len(sh.order) > 0 {
+		return sh.order[0].Col == "g"
+	}
+	return sh.Distinct && sh.Proj[0] == "g"
+}
+
+// diagnose gives the canonical signature of a wrong answer.  Root causes that the evidence identifies get their own
+// signature (the in-transaction ones are those of C13's findings, whose consequences for queries show up here):
+//   - inside a transaction that deleted / changed rows, a scan of a secondary index still sees the old entries;
+//   - inside a transaction, rows written by it that share a secondary-index key collapse to one (the transient
+//     index key has no primary key);
+//   - DISTINCT + ORDER BY + LIMIT served by the bounded (top-N) sort: LIMIT is applied before DISTINCT;
+//   - hash join with an unqualified inner column in ON: the hash table is keyed by a selector no row has;
+//   - a NULL of a FLOAT column compared with an INTEGER literal is "not comparable" (rows the plan skips do not fail);
+//   - ORDER BY a column of the joined table is resolved against the outer table's index and the sort is dropped;
+//   - hash join with an ON conjunct that is not an equality and involves the outer row: evaluated for the first outer row only;
+//   - NULLS FIRST / NULLS LAST is ignored when an index serves the order.
+// Everything else: query class : symptom : form : plan class : state.
+func (w *world) diagnose(symptom, chain, otherChain, why string, f form, q *query) string {
 	sec := usesSecondary(chain) || usesSecondary(otherChain)
+	hashForm := f.joinCond == "hash" || f.joinCond == "flip" || f.joinCond == "unq"
 	switch {
-	case w.txWrites() && sec && len(w.h.TxRemoved) > 0:
+	case q.Tbl != "t3" && w.txTouches(q) && sec && len(w.h.TxRemoved) > 0:
 		return "sqltx:uidx_no_own_removal:in-tx-index-scan:" + queryClass(q)
-	case w.txWrites() && sec:
+	case w.txTouches(q) && sec:
 		return "sqltx:transient_index_key_without_pk:in-tx-index-scan:" + queryClass(q)
 	case strings.Contains(chain, "distinct>projected>sort:topN"):
 		return "sql.select:topN-sort-before-distinct:" + symptom + ":" + stateClass(w.state)
+	case strings.Contains(why, "values are not comparable") && len(q.Where) > 0 && hasILit(q.Where[0]):
+		return "sql.compare:null-float-vs-integer-literal-not-comparable:" + stateClass(w.state)
+	case nonEquiOn(q) && hashForm && strings.Contains(chain, "joint") && !strings.HasPrefix(symptom, "error"):
+		return "sql.join:hash-join-correlated-non-equi-conjunct:" + q.Join[0].Type + ":" + symptom
 	case f.joinCond == "unq" && strings.Contains(chain, "joint") && !strings.HasPrefix(symptom, "error"):
 		return "sql.join:hash-join-unqualified-inner-column:" + queryClass(q) + ":" + symptom
+	case orderByInner(q) && symptom == "order" && !strings.Contains(chain, "sort"):
+		return "sql.join:order-by-inner-column-taken-for-outer-index-column:" + stateClass(w.state)
+	case explicitNulls(q) && symptom == "order" && !strings.Contains(chain, "sort"):
+		return "sql.select:nulls-first-last-ignored-by-index-order:" + stateClass(w.state)
 	}
 	return fmt.Sprintf("sql.select:%s:%s:%s:%s:%s", queryClass(q), symptom, f.name, planClass(chain), stateClass(w.state))
 }
@@ -725,7 +846,7 @@ func (w *world) report(symptom, chain string, f form, q *query, sql string, k *k
 	if i := strings.Index(why, "through the plan "); i >= 0 {
 		other = why[i+len("through the plan "):]
 	}
-	sig := w.diagnose(symptom, chain, other, f, q)
+	sig := w.diagnose(symptom, chain, other, why, f, q)
 	text := fmt.Sprintf("history %d (mutation %d, base %d, split %d) schema %q state %s: %s  -- %s; served by %s; expected (abstract, before LIMIT) %v; engine returned %v",
 		w.h.ID, w.h.Mut, w.h.Base, w.h.Split, w.sc.Name, w.state, sql, why, chain, k.Rows, got)
 	res.Violate(sig, text, map[string]interface{}{
@@ -785,7 +906,7 @@ func (w *world) runPart(p *part) {
 			sql := renderQuery(qp, w.c, f)
 			sig := "sql.select:partition-identity:" + stateClass(w.state)
 			if w.txWrites() && strings.Contains(strings.ReplaceAll(chains, "raw[pk]", ""), "raw[") {
-				sig = w.diagnose("partition-identity", "raw[x]", "", f, qp)
+				sig = w.diagnose("partition-identity", "raw[x]", "", "", f, qp)
 			}
 			res.Violate(sig,
 				fmt.Sprintf("history %d schema %q state %s: %s: P, NOT P and P IS NULL do not partition the result: %v + %v + %v vs %v",
@@ -831,6 +952,9 @@ func (r *runner) run(workers int) {
 	res.Evaluations = res.Counters["executions"]
 	for c, n := range r.planCls {
 		res.Count("plan:"+c, n)
+	}
+	for c, n := range r.guardCnt {
+		res.Count("guard:"+c, n)
 	}
 	type cn struct {
 		c string
